@@ -30,6 +30,7 @@ type Env struct {
 	parent *Env
 	phiOverride map[*ssa.Phi]Val
 	inLoop bool
+	blockPhis map[string]*ssa.Phi
 	preferNames bool
 	pkg    *types.Package
 	ghostDepth int
@@ -47,7 +48,7 @@ func (r *FnRun) newEnv(cur, old *State) *Env {
 }
 
 func (env *Env) child() *Env {
-	return &Env{r: env.r, vars: map[string]CV{}, cur: env.cur, old: env.old, parent: env, phiOverride: env.phiOverride, inLoop: env.inLoop, preferNames: env.preferNames, pkg: env.pkg}
+	return &Env{r: env.r, vars: map[string]CV{}, cur: env.cur, old: env.old, parent: env, phiOverride: env.phiOverride, inLoop: env.inLoop, blockPhis: env.blockPhis, preferNames: env.preferNames, pkg: env.pkg}
 }
 
 func (env *Env) withStates(cur, old *State) *Env {
@@ -234,6 +235,11 @@ func (e *Engine) findGlobal(from *types.Package, pkgName, name string) *ssa.Glob
 func (env *Env) evalIdent(name string) CV {
 	r := env.r
 	tb := env.tb()
+	if env.blockPhis != nil {
+		if phi, ok := env.blockPhis[name]; ok {
+			return CV{V: r.val(phi), T: phi.Type()}
+		}
+	}
 	// variables of enclosing loops (header phis) shadow parameters of the same name
 	if env.phiOverride != nil || env.inLoop {
 		if phi, ok := r.loopPhis[name]; ok {
@@ -1193,6 +1199,16 @@ var eventKinds = map[string]int{"V": 1, "B": 2, "W": 3, "CW": 4, "RV": 5, "RB": 
 func (env *Env) useAxiom(e *Expr) *Term {
 	r := env.r
 	ax, ok := r.e.specs.Axioms[e.Name]
+	isLemma := false
+	if !ok {
+		// a lemma with parameters can be used like an axiom: it is proved separately (obligation lemma:NAME)
+		for _, l := range r.e.specs.Lemmas {
+			if l.Name == e.Name && len(l.Params) > 0 {
+				ax = &SpecFunc{Name: l.Name, Params: l.Params, PTypes: l.PTypes, Body: l.E}
+				ok, isLemma = true, true
+			}
+		}
+	}
 	if !ok {
 		panic(cerr("unknown axiom %s", e.Name))
 	}
@@ -1207,7 +1223,9 @@ func (env *Env) useAxiom(e *Expr) *Term {
 		}
 		ce.vars[p] = a
 	}
-	r.e.usedAxioms[e.Name] = true
+	if !isLemma {
+		r.e.usedAxioms[e.Name] = true
+	}
 	return ce.EvalBool(ax.Body)
 }
 
